@@ -22,7 +22,11 @@ def to_liquid_string(val: Any, *, auto_escape: bool = False) -> str:
     elif val is None:
         val = ""
     elif isinstance(val, range):
-        val = f"{val.start}..{val.stop - 1}"
+        try:
+            val = f"{val.start}..{val.stop - 1}"
+        except ValueError as err:
+            # An integer with more digits than the interpreter is willing to convert.
+            raise LiquidValueError(str(err), token=None) from err
     elif isinstance(val, Sequence):
         if auto_escape:
             val = Markup("").join(
